@@ -85,6 +85,31 @@ def typed_equal(left, right):
     return left == right
 
 
+def first_diff(got, want, path='$'):
+    """Human readable location of the first typed difference."""
+    if got is _BROKEN:
+        return 'file does not parse as YAML'
+    if type(got) is not type(want):
+        return '%s: cached %r (%s), expected %r (%s)' % (
+            path, got, type(got).__name__, want, type(want).__name__)
+    if isinstance(got, dict):
+        for key in sorted(set(got) | set(want)):
+            if key not in got:
+                return '%s.%s: missing from the cache file' % (path, key)
+            if key not in want:
+                return '%s.%s: only in the cache file' % (path, key)
+            if not typed_equal(got[key], want[key]):
+                return first_diff(got[key], want[key], '%s.%s' % (path, key))
+    elif isinstance(got, list):
+        if len(got) != len(want):
+            return '%s: %d items cached, %d expected' % (
+                path, len(got), len(want))
+        for idx, (one, two) in enumerate(zip(got, want)):
+            if not typed_equal(one, two):
+                return first_diff(one, two, '%s[%d]' % (path, idx))
+    return '%s: cached %r, expected %r' % (path, got, want)
+
+
 def stored_json(tree, path):
     """The harness' own reading of a node written by zkutils.put: JSON."""
     raw = tree.nodes[path].data
@@ -253,10 +278,12 @@ class World(object):
                 raise Violation(
                     'c12.sync.written-content',
                     'at %s cache file %r holds the complete output of the '
-                    'write, which is not the manifest merged with the '
-                    'placement data: %r, expected %r' % (
-                        where, name, parse(data) if parse(data) is not _BROKEN
-                        else data[:200], self.new.get(name)))
+                    'write, which is not the manifest stored in ZooKeeper '
+                    'merged with the placement data and task id: %s' % (
+                        where, name,
+                        first_diff(parse(data), self.new.get(name))
+                        if self.new.get(name) is not None
+                        else 'nothing should have been written'))
             if which is None:
                 raise Violation(
                     bucket_prefix + '.partial-manifest',
@@ -482,9 +509,11 @@ def check_after_sync(world, stats):
             if new is None or not typed_equal(parse(data), new):
                 raise Violation(
                     'c12.sync.written-content',
-                    'file %r written by the synchronisation holds %r, '
-                    'expected %r' % (name, parse(data) if parse(data)
-                                     is not _BROKEN else data[:200], new))
+                    'file %r written by the synchronisation differs from '
+                    'the manifest stored in ZooKeeper merged with the '
+                    'placement data and task id: %s' % (
+                        name, first_diff(parse(data), new) if new is not None
+                        else 'nothing should have been written'))
         else:
             stats.count('files_kept')
         outdated = (case.get('check_existing') and name in world.prior and
